@@ -241,8 +241,10 @@ func (c *Conn) clientHandshake(ctx context.Context) (err error) {
 
 			switch m := msg.(type) {
 			case *helloVerifyRequestMsg:
-				// 检查是否已设置 cookie（对端重传检测）
-				if len(hello.cookie) > 0 {
+				// 检查是否已设置 cookie（对端重传检测）。cookie 不同说明服务端为当前的 ClientHello 签发了
+				// 新的 cookie（例如先前的 ClientHello 或 HelloVerifyRequest 在途中被改动）：必须采用新 cookie，
+				// 否则双方会无休止地互发 ClientHello / HelloVerifyRequest。
+				if len(hello.cookie) > 0 && bytes.Equal(hello.cookie, m.cookie) {
 					// 对端重传了 HelloVerifyRequest，我们重传 ClientHello
 					c.hsState.Store(int32(stateSending))
 					resend = true
